@@ -398,7 +398,7 @@ def repair_dna(dna_sequence, accessor, start_index, observed_length, vt_check=No
             index_queue[location] = vertex_index
             visited_times += 1
             location += 1
-        elif len(split_sequences[-1]) > 0:
+        else:
             detected_count += 1
             split_sequences[-1] = split_sequences[-1][: - observed_length + 1]
             vertex_index = dna_to_number(dna_sequence[location + 1: location + observed_length + 1], is_string=False)
